@@ -78,7 +78,7 @@ class UploadHandler(RequestHandlerBase):
             logging.debug(cfe)
             # TODO: check if uploaded file needs to be deleted
             return self.return_error(str(cfe))
-        stem = Path(secure_filename(blob_info.filename)).stem
+        stem = Path(secure_filename(blob_info.filename)).stem.lower()
         existing = models.MediaFile.get(name=stem)
         if existing is not None and existing.stream_pk != current_stream.pk:
             # media file names are unique across all streams
